@@ -33,4 +33,5 @@ func init() {
 	register("C20", "fault_enumeration", C20)
 	register("C19", "exploration", C19)
 	register("C16", "exploration", C16)
+	register("C11", "exploration", C11)
 }
